@@ -36,9 +36,9 @@ Theorem client_notify_is_notification fresh f i method params n req p' n' :
 Proof.
   intros Hm Hp H. unfold is_param_container in Hp.
   unfold payload_notify, payload_request, params_or_empty in H.
-  cbn [is_string negb] in H.
+  cbn [is_string negb p_id p_version] in H.
   destruct (needs_fresh_id i); destruct (truthy params) eqn:Ht; destruct f;
-    vm_compute in H; inversion H; subst; clear H;
+    cbn in H; inversion H; subst; clear H;
     unfold is_notification_entry, wellformed_entry, no_id, method_of, params_of;
     cbn; rewrite ?Hm, ?Hp; cbn; repeat split; auto; intros; discriminate.
 Qed.
